@@ -419,12 +419,12 @@ UNITS["v_crud_vec"] = dict(
              safety_id="C18.get_value.safety"),
         dict(id="insert_value", file=CRUD, impl=VEC_IMPL, name="insert_value",
              orig_sig="fn insert_value(&mut self, key: isize, value: Value) -> Option<Value>",
-             sig="pub fn insert_value(this: &mut Vec<Value>, key: isize, value: Value) -> (r: Option<Value>)",
+             sig="#[verifier::loop_isolation(false)]\npub fn insert_value(this: &mut Vec<Value>, key: isize, value: Value) -> (r: Option<Value>)",
              requires=["old(this)@.len() <= isize::MAX", "key > isize::MIN", "old(this)@.len() + (if key >= 0 { key as int } else { -(key as int) }) < isize::MAX"],
              rewrites=[RW_SELF],
              loops={"_count": 2,
                     0: dict(spec="invariant key >= 0, this@.len() <= key as usize + 1, this@.len() >= old(this)@.len(), this@ == old(this)@ + nulls((this@.len() - old(this)@.len()) as nat), old(this)@.len() <= key as usize,\n decreases key as usize + 1 - this@.len(),"),
-                    1: dict(spec="invariant key < 0, len_required == (-key) as usize, this@.len() >= old(this)@.len(), this@.len() <= len_required - 1, this@ == nulls((this@.len() - old(this)@.len()) as nat) + old(this)@, old(this)@.len() < len_required,\n decreases len_required - 1 - this@.len(),")},
+                    1: dict(spec="invariant key < 0, key > isize::MIN, this@.len() >= old(this)@.len(), this@.len() <= (-key) as usize - 1, this@ == nulls((this@.len() - old(this)@.len()) as nat) + old(this)@, old(this)@.len() < (-key) as usize,\n decreases (-key) as usize - 1 - this@.len(),")},
              ensures=[("C18.insert_value.whole", "after inserting, the whole array equals the specified result: the addressed slot holds the value, padding is null, every other element is kept (same position from the end the index counts from)",
                        "final(this)@ == spec_insert(old(this)@, key as int, value)"),
                       ("C18.insert_value.previous", "the previous element at the addressed slot is returned (nothing when the array had to grow)",
